@@ -246,7 +246,9 @@ pub fn run(tier: &str, seed: u64) -> i32 {
         -2.5, 9.3e18, 2^53+1) x 58 field values (signed/unsigned 64-bit extremes, doubles incl. NaN/inf/+-0/2^63, \
         numeric and non-numeric strings, booleans, null, containers, absent); sampled part: random and \
         boundary-biased i64/u64/f64 against random constants. Engine three-valued result (probe C and not (C)) must \
-        be admissible for exact arithmetic. Non-trivial: a rule whose documents give both a true and a non-true \
+        be admissible for exact arithmetic. Also: wide or-groups (100-380 numeric entries / distinct numeric fields) and \
+        disjunctions of 3-5 conjunctions holding int()/flt() comparisons against numbers, numeric strings and \
+        booleans. Every document is also matched against the rule optimised with the default switches and with one further switch set; a verdict that differs from the rule as loaded must be explained by the known findings K1 / K2 (relaxed reference for that switch set). Non-trivial: a rule whose documents give both a true and a non-true \
         result; distinct by rule text."
         .into();
     report.assumptions = vec![
@@ -337,6 +339,85 @@ pub fn run(tier: &str, seed: u64) -> i32 {
         },
         judge,
         |_, _| {},
+    );
+    // numeric predicates in rules the optimiser restructures: wide or-groups (hundreds of numeric
+    // entries on one field, hundreds of distinct numeric fields) and disjunctions of conjunctions
+    // that hold cast comparisons (matrix rows), against numbers, numeric strings and booleans
+    gen::drive(
+        &mut report,
+        4,
+        if tier == "thorough" { 600 } else { 60 },
+        || (gen::rule_wide(), prop::collection::vec(any::<u16>(), 24)),
+        |(rule, picks): &(crate::spec::RuleSpec, Vec<u16>)| {
+            let mut c = Case::new("c09.wide");
+            c.rules = vec![rule.text(), rule.negated_text()];
+            c.docs = gen::wide_docs(rule, picks);
+            c.extra = json!({"form": "wide"});
+            vec![c]
+        },
+        judge,
+        |_, rep| rep.label("wide_or_group_rule"),
+    );
+    gen::drive(
+        &mut report,
+        6,
+        if tier == "thorough" { 60_000 } else { 4_000 },
+        || {
+            (
+                prop::collection::vec((0u8..6, prop::sample::select(vec!["=", ">", ">=", "<", "<="]), -2i64..8, 0u8..4), 3..=5),
+                prop::collection::vec((0u8..8, -2i64..9), 6),
+                any::<bool>(),
+            )
+        },
+        |(blocks, vals, negate): &(Vec<(u8, &str, i64, u8)>, Vec<(u8, i64)>, bool)| {
+            // identifiers I0..Ik, each a conjunction of a (cast) numeric predicate on n / m and a
+            // string predicate; condition I0 or I1 or ..
+            let mut body = String::new();
+            let mut names = vec![];
+            for (i, (kind, op, c, other)) in blocks.iter().enumerate() {
+                let field = if kind % 2 == 0 { "n" } else { "m" };
+                let pred = match kind / 2 {
+                    0 => format!("    int({field}): '{op}{c}'\n"),
+                    1 => format!("    flt({field}): '{op}{c}.5'\n"),
+                    _ => format!("    {field}: '{op}{c}'\n"),
+                };
+                let second = match other {
+                    0 => "    f1: a\n".to_string(),
+                    1 => format!("    int({}): {}\n", if field == "n" { "m" } else { "n" }, c + 1),
+                    2 => "    f1: 'b*'\n".to_string(),
+                    _ => String::new(),
+                };
+                body.push_str(&format!("  I{i}:\n{pred}{second}"));
+                names.push(format!("I{i}"));
+            }
+            let cond = names.join(" or ");
+            let cond = if *negate { format!("not ({cond})") } else { cond };
+            let mk = |c: &str| format!("detection:\n{body}  condition: {c}\ntrue_positives: []\ntrue_negatives: []\n");
+            let mut docs = vec![DObj::default()];
+            for (k, v) in vals {
+                let val = match k {
+                    0 => DocVal::Int(*v),
+                    1 => DocVal::UInt(v.unsigned_abs()),
+                    2 => DocVal::Str(v.to_string()),
+                    3 => DocVal::Float(*v as f64 + 0.5),
+                    4 => DocVal::Str(format!("{}.5", v)),
+                    5 => DocVal::Bool(*v % 2 == 0),
+                    6 => DocVal::Float(*v as f64),
+                    _ => DocVal::s("abc"),
+                };
+                for (a, b) in [("n", "m"), ("m", "n")] {
+                    docs.push(DObj(vec![(a.to_string(), val.clone()), ("f1".to_string(), DocVal::s("a"))]));
+                    docs.push(DObj(vec![(a.to_string(), val.clone()), (b.to_string(), DocVal::Int(*v + 1)), ("f1".to_string(), DocVal::s("bc"))]));
+                }
+            }
+            let mut c = Case::new("c09.matrix_shaped");
+            c.rules = vec![mk(&cond), mk(&format!("not ({cond})"))];
+            c.docs = docs;
+            c.extra = json!({"form": "matrix-shaped"});
+            vec![c]
+        },
+        judge,
+        |_, rep| rep.label("disjunction_of_cast_conjunctions"),
     );
     report.finish()
 }
